@@ -36,7 +36,12 @@ RULE = ("BFS part: state = directory tree (sorted (path, content) list); "
         "period, filter, explicit files=] x {move, copy}, raw / convert=True "
         "/ convert=callable, + 1 copy under a negated filter + 3 from the "
         "targets back); 6 deletes by selection; 2 dry runs; 1 read-back of "
-        "every file through read, fs[s:e], fs[t] and collect. Trees reached "
+        "every file through read, fs[s:e], fs[t] and collect. In the warm search "
+        "every state is expanded a second time after a read of every file "
+        "with a per-call option (read(f, only=...), collect(read_args=...)) "
+        "by all operations that read file contents (read-back, converting "
+        "moves/copies), because such a read may leave traces in a long-lived "
+        "FileSet object that no directory listing shows. Trees reached "
         "by several histories are merged; every (state, operation) is "
         "executed on a real directory with fresh FileSet objects (cold) and, "
         "to depth 3, with long-lived ones (warm). Round-trip part: NetCDF "
@@ -70,9 +75,14 @@ STATES_PER_SHARD = 40
 # the user handler of the BFS filesets
 # ---------------------------------------------------------------------------
 
-def read_pickle(file_info):
+def read_pickle(file_info, only=None):
+    """`only` is a per-call reading option (as `fields` of the NetCDF4
+    handler): return just that entry of the payload."""
     with open(file_info.path, "rb") as f:
-        return pickle.load(f)
+        data = pickle.load(f)
+    if only is not None:
+        data = {only: data[only]}
+    return data
 
 
 def write_pickle(data, file_info):
@@ -175,7 +185,18 @@ class FileSets(dict):
 # executing one operation through typhon
 # ---------------------------------------------------------------------------
 
-KIND = {"w": "write", "del": "delete", "rb": "read"}
+KIND = {"w": "write", "del": "delete", "rb": "read", "rbo": "read"}
+
+# Reading with a per-call option leaves the directory alone but may leave
+# traces in a long-lived FileSet object. The warm search therefore expands
+# every state a second time *after* such a read, with the operations that
+# read file contents (the only ones that can observe it).
+OPTION_READ = ("rbo",)
+
+
+def reading_ops():
+    return [op for op in model.ops()
+            if op[0] == "rb" or (op[0] == "mv" and op[5] != "raw")]
 
 
 def op_kind(op):
@@ -205,7 +226,8 @@ def execute(tree, fss, op, state, chosen):
     call itself did wrong (exceptions, values read back). The tree is judged
     by the caller."""
     from typhon.files.fileset import NoFilesError
-    api = {"w": "write", "del": "delete", "mv": "move", "rb": "read"}[op[0]]
+    api = {"w": "write", "del": "delete", "mv": "move", "rb": "read",
+           "rbo": "read"}[op[0]]
     try:
         with controlled():
             if op[0] == "w":
@@ -227,6 +249,8 @@ def execute(tree, fss, op, state, chosen):
                            "call": model.convert_payload}[conv]
                 fs.move(target, convert=convert, copy=copy,
                         **selection_kwargs(tree, fs, sel, chosen))
+            elif op[0] == "rbo":
+                return read_with_option(tree, fss, state)
             else:
                 return read_back(tree, fss, state)
     except NoFilesError as exc:
@@ -265,6 +289,28 @@ def read_back(tree, fss, state):
                 got = call()
                 if got != want:
                     return ("read/%s-mismatch" % name, want, got)
+    return None
+
+
+def read_with_option(tree, fss, state):
+    """Every file is read with a per-call option (read() and collect())."""
+    from typhon.files.fileset import NoFilesError
+    for fsid in model.FILESETS:
+        fs = fss[fsid]
+        mine = {p: f for p, f in state.items() if f.fsid == fsid}
+        for p, f in mine.items():
+            got = fs.read(os.path.join(tree.root, p), only="v")
+            if got != {"v": f.content["v"]}:
+                return ("read/per-call-option-ignored", {"v": f.content["v"]},
+                        got)
+        try:
+            data = fs.collect(read_args={"only": "c"})
+        except NoFilesError:
+            data = []
+        want = sorted(repr({"c": f.content["c"]}) for f in mine.values())
+        if sorted(map(repr, data)) != want:
+            return ("read/collect-per-call-option-ignored", want,
+                    sorted(map(repr, data)))
     return None
 
 
@@ -336,11 +382,18 @@ class Explorer:
             state = new
         return state, warm
 
-    def transition(self, snap, state, warm, op):
+    def transition(self, snap, state, warm, op, after_option_read=False):
         tree = self.tree
         tree.restore(snap)
         new, chosen = model.step(state, op)
         fss = tree.filesets(long_lived=warm)
+        if after_option_read:
+            bad = execute(tree, fss, OPTION_READ, state, [])
+            if bad is None and tree.listing() != model.listing(state):
+                bad = ("read/tree-changed", model.listing(state),
+                       tree.listing())
+            if bad is not None:
+                return bad, tree.listing(), chosen, new
         bad = execute(tree, fss, op, state, chosen)
         observed = tree.listing()
         if bad is None:
@@ -391,6 +444,25 @@ def run_bfs_shard(shard):
                         res.error("NONDETERMINISM in %r" % (case,))
                     res.violation(bad[0], case, bad[1], bad[2],
                                   "%s %s" % (mode, op_kind(op)))
+            if mode != "warm":
+                continue
+            for op in reading_ops():
+                bad, observed, chosen, _ = ex.transition(
+                    snap, state, warm, op, after_option_read=True)
+                res.case(nontrivial=nontrivial(op, state, chosen))
+                res.count("transitions")
+                res.count("transitions_warm_after_option_read")
+                if bad is not None:
+                    case = dict(part="bfs", tier=tier, mode=mode, root=root,
+                                history=[list(o) for o in history],
+                                op=list(op), after_option_read=True)
+                    again = ex.transition(snap, state, warm, op,
+                                          after_option_read=True)[0]
+                    if again is None or again[0] != bad[0]:
+                        res.error("NONDETERMINISM in %r" % (case,))
+                    res.violation("after-option-read/" + bad[0], case,
+                                  bad[1], bad[2], "warm, after a read with "
+                                  "a per-call option: %s" % op_kind(op))
         if last:
             res.sample(dict(part="bfs", mode=mode, root=root,
                             history=[list(o) for o in last[0]],
@@ -444,7 +516,8 @@ def replay(case):
         if built is None:
             return dict(ok=False, key="history-not-reproducible")
         state, warm = built
-        bad = ex.transition(ex.tree.snapshot(), state, warm, op)[0]
+        bad = ex.transition(ex.tree.snapshot(), state, warm, op,
+                            bool(case.get("after_option_read")))[0]
     finally:
         ex.tree.close()
     if bad is None:
